@@ -42,6 +42,11 @@ def bases(tier):
         for li in (0.1, 1.0):
             for ctl in ("DistanceRatio", "ResiduumRatio", "Exact"):
                 out.append((dom, {"control": ctl, "params": {"lamb_init": li, "lamb_inc": 4.0}}, None))
+    # ill-conditioned Hessian (reported condition estimates become tiny)
+    ill = G.raw(3, {"H": [[1e-5, 0.0, 0.0], [0.0, 1.0, 0.0], [0.0, 0.0, 1e5]], "g": [1.0, -2.0, 3.0]}, [], ["-inf", "-inf", "-inf"], ["inf", "inf", "inf"],
+                [1.0, 1.0, 1.0], "ill_conditioned_qp")
+    for ctl in ("DistanceRatio", "ResiduumRatio", "Exact"):
+        out.append((ill, {"control": ctl}, None))
     # entropy-regularised quadratic (defined for x > 0 only), far start, large first steps
     for x0 in ([2.5, 3.0], [4.0, 0.5]):
         ent = G.raw(2, {"H": [[2.0, 1.5], [1.5, 2.0]], "g": [0.0, 0.0], "entropy": True}, [], ["-inf", "-inf"], ["inf", "inf"], x0, f"entropy|{x0}")
@@ -75,6 +80,7 @@ def variants(tier):
         v.append({"v": "interval", "H": 40, "interval": iv})
     for cbs in (["rec"], ["force"], ["rec", "force"]):
         v.append({"v": "callbacks", "H": 40, "cbs": cbs})
+    v.append({"v": "cb_sequence", "H": 40})
     v.append({"v": "path", "H": 40})
     for lin in ("LU", "GMRES", "MINRES"):
         v.append({"v": "rcond", "H": 40, "linear": lin})
@@ -156,6 +162,16 @@ def run_variant(spec, cfg, sc, var):
                     solver.callbacks.register(CallbackType.ComputedStep, lambda a, b, acc: used.__setitem__("cb", used["cb"] + 1))
                 else:
                     solver.callbacks.register(CallbackType.ComputedStep, lambda a, b, acc: (force(a, b, acc), used.__setitem__("cb", used["cb"] + 1)))
+    elif v == "cb_sequence":
+        # register A, register B, unregister A, register C: B and C must both hear every announced step
+        heard = {"A": 0, "B": 0, "C": 0}
+        used["heard"] = heard
+
+        def pre(solver):
+            hA = solver.callbacks.register(CallbackType.ComputedStep, lambda a, b, acc: heard.__setitem__("A", heard["A"] + 1))
+            solver.callbacks.register(CallbackType.ComputedStep, lambda a, b, acc: heard.__setitem__("B", heard["B"] + 1))
+            solver.callbacks.unregister(hA)
+            solver.callbacks.register(CallbackType.ComputedStep, lambda a, b, acc: heard.__setitem__("C", heard["C"] + 1))
     elif v == "path":
         params["collect_path"] = True
     elif v == "rcond":
@@ -217,6 +233,12 @@ def run_case(case):
         ctx, c, used = run_variant(spec, cfg, sc, var)
         n += 1
         vname = var["v"] + (":" + var.get("level", "") if var["v"] in ("log", "pattern") else "")
+        if var["v"] == "cb_sequence" and ctx.rec.result is not None:
+            h = used["heard"]
+            it = ctx.rec.result.iterations
+            if h["A"] != 0 or h["B"] != it or h["C"] != it:
+                viol.append({"sig": "C09|cb_sequence|announcements", "msg": f"{it} iterations, but the callbacks heard A(unregistered)={h['A']} B={h['B']} C={h['C']}",
+                             "case": dict(case, variants=[var])})
         if ctx.rec.digest != b.rec.digest:
             a, bb = ctx.rec, b.rec
             if a.exc is not None and bb.exc is None:
